@@ -1,4 +1,6 @@
 """C17 -- Quantized integer kernels are exact (DESIGN.md section 2, C17)."""
+import os
+
 import vf
 
 META = {
@@ -47,11 +49,15 @@ def main(ctx):
     ctx.audit(GROUP)
     failed = ctx.prove(GROUP, "Props_C17", THEOREMS)
     bindir = ctx.harness(GROUP, profile="release", bins=["c17"])
-    cases = ctx.gen_exec(bindir, "c17", ctx.n(60, 500), inputs=ctx.replay_inputs())
+    cases = ctx.gen_exec(bindir, "c17", int(os.environ.get('VERIF_N', ctx.n(60, 500))), inputs=ctx.replay_inputs())
     shard = max(4, -(-len(cases) // vf.NCPU))
     # Alarm on the property only: exactness wherever the statement demands it.
     ctx.correspond("int8-gemm-exact", GROUP, REQ, cases, show="show", agree="always", prop_ok="prop_ok", shard=shard,
                    fn_name="Gemm.Int8.dot_zp vs GemmExecutor<u8,i8,i32> output")
+    if os.environ.get('VERIF_FAST') == '1':
+        if failed and not ctx.violations:
+            ctx.proof_broken(failed, 'all correspondence cases of this run')
+        return
     # Informational: today's kernels including the saturating pair sums of may_saturate kernels.
     dis, _, err = ctx.coq_eval_cases(GROUP, REQ, [c["term"] for c in cases], "agree", "always", shard, tag="sat")
     ctx.extra["kernel_model_disagreements"] = (len(dis) if not err else "evaluation error: " + str(err)[:200])
